@@ -321,7 +321,8 @@ func (c12pDriver) Gen(r *Rand, tier string) []json.RawMessage {
 		nr = 30000
 	}
 	mixed := append(append([]string{}, chars...), words...)
-	mixed = append(mixed, "closed", "state", "title", "actor", "participant", "creation", "Z", "日", "\u00a0", "\u2003", "\xc3", "-", "desc", "\n")
+	mixed = append(mixed, "closed", "state", "title", "actor", "participant", "creation", "Z", "日", "\u00a0", "\u2003", "\xc3", "-", "desc", "\n",
+		"\u0085", "\u1680", "\u2028", "\u205f", "\u3000", "\u200b", "\v")
 	for i := 0; i < nr; i++ {
 		n := r.Range(1, 60)
 		var sb strings.Builder
@@ -861,6 +862,15 @@ func (c12eDriver) Run(raw json.RawMessage) Case {
 		}
 		identsA = append(identsA, id)
 	}
+	// The cache is opened while the repository holds identities only, and rebuilt below, one sub-cache after the
+	// other, once the bugs exist: RepoCache builds its sub-caches concurrently, and on the pinned tree the bug
+	// builder reads the identity sub-cache's maps while they are being filled (a data race that kills the process
+	// now and then; it belongs to the cache properties, not to this one).
+	rc, err := cache.NewRepoCacheNoEvents(repoA)
+	if err != nil {
+		return Case{Skip: "cache: " + err.Error()}
+	}
+	defer rc.Close()
 	idents := [][]*identity.Identity{identsA}
 	repos := []repository.TestedRepo{repoA}
 	if needB {
@@ -943,12 +953,17 @@ func (c12eDriver) Run(raw json.RawMessage) Case {
 			return Case{Skip: "merge: " + err.Error()}
 		}
 	}
-	// the cache, built from the git data
-	rc, err := cache.NewRepoCacheNoEvents(repoA)
-	if err != nil {
-		return Case{Skip: "cache: " + err.Error()}
+	// the cache, built from the git data (SubCache.Build: excerpts and full-text index from scratch)
+	for ev := range rc.Identities().Build() {
+		if ev.Err != nil {
+			return Case{Skip: "identity cache build: " + ev.Err.Error()}
+		}
 	}
-	defer rc.Close()
+	for ev := range rc.Bugs().Build() {
+		if ev.Err != nil {
+			return Case{Skip: "bug cache build: " + ev.Err.Error()}
+		}
+	}
 
 	identIdx := map[entity.Id]int{}
 	var identTerms []string
